@@ -139,6 +139,7 @@ type generatorInfo struct {
 	pkg      *packages.Package
 	ctxParam types.Object
 	origin   map[types.Object]ctxOffset // child variables, collection variables, struct fields, callback params
+	field    map[types.Object]string    // AST node field the child was generated from ("Operate.A")
 	problems []string
 }
 
@@ -202,7 +203,7 @@ func (c *Ctx) forwarders(a *genAnchors) map[*types.Func]bool {
 
 func (c *Ctx) analyseGenerator(a *genAnchors, fwd map[*types.Func]bool, pkg *packages.Package, fd *ast.FuncDecl) *generatorInfo {
 	info := pkg.TypesInfo
-	gi := &generatorInfo{decl: fd, pkg: pkg, origin: map[types.Object]ctxOffset{}}
+	gi := &generatorInfo{decl: fd, pkg: pkg, origin: map[types.Object]ctxOffset{}, field: map[types.Object]string{}}
 	// context parameter
 	if fd.Type.Params != nil {
 		for _, f := range fd.Type.Params.List {
@@ -301,6 +302,11 @@ func (c *Ctx) analyseGenerator(a *genAnchors, fwd map[*types.Func]bool, pkg *pac
 						gi.problems = append(gi.problems, fmt.Sprintf("%s is generated with different contexts", obj.Name()))
 					}
 					gi.origin[obj] = o
+					if sel, ok := ast.Unparen(call.Args[0]).(*ast.SelectorExpr); ok {
+						if nm := namedOf(info.TypeOf(sel.X)); nm != nil {
+							gi.field[obj] = nm.Obj().Name() + "." + sel.Sel.Name
+						}
+					}
 				}
 			}
 			return true
@@ -315,6 +321,7 @@ func (c *Ctx) analyseGenerator(a *genAnchors, fwd map[*types.Func]bool, pkg *pac
 					if o, ok := gi.origin[info.ObjectOf(id)]; ok && t.Value != nil {
 						if v, ok := t.Value.(*ast.Ident); ok && a.containsParserFunc(info.TypeOf(v), 0) {
 							gi.origin[info.ObjectOf(v)] = o
+							gi.field[info.ObjectOf(v)] = gi.field[info.ObjectOf(id)]
 						}
 					}
 				}
@@ -329,6 +336,7 @@ func (c *Ctx) analyseGenerator(a *genAnchors, fwd map[*types.Func]bool, pkg *pac
 										for _, pn := range f.Names {
 											if pobj := info.Defs[pn]; pobj != nil && a.isParserFunc(pobj.Type()) {
 												gi.origin[pobj] = o
+												gi.field[pobj] = gi.field[info.ObjectOf(id)]
 											}
 										}
 									}
@@ -371,6 +379,7 @@ func (c *Ctx) analyseGenerator(a *genAnchors, fwd map[*types.Func]bool, pkg *pac
 									gi.problems = append(gi.problems, "struct field "+k.Name+" holds functions of different contexts")
 								}
 								gi.origin[stru.Field(i)] = o
+								gi.field[stru.Field(i)] = gi.field[info.ObjectOf(v)]
 							}
 						}
 					}
@@ -383,6 +392,29 @@ func (c *Ctx) analyseGenerator(a *genAnchors, fwd map[*types.Func]bool, pkg *pac
 }
 
 // childOf resolves the callee expression of a call to a generated child.
+// childObj resolves the callee expression of a call to the object that carries the child's origin.
+func (gi *generatorInfo) childObj(info *types.Info, fun ast.Expr) types.Object {
+	switch t := ast.Unparen(fun).(type) {
+	case *ast.Ident:
+		if _, ok := gi.origin[info.ObjectOf(t)]; ok {
+			return info.ObjectOf(t)
+		}
+	case *ast.IndexExpr:
+		if id, ok := ast.Unparen(t.X).(*ast.Ident); ok {
+			if _, ok := gi.origin[info.ObjectOf(id)]; ok {
+				return info.ObjectOf(id)
+			}
+		}
+	case *ast.SelectorExpr:
+		if sel, ok := info.Selections[t]; ok {
+			if _, ok := gi.origin[sel.Obj()]; ok {
+				return sel.Obj()
+			}
+		}
+	}
+	return nil
+}
+
 func (gi *generatorInfo) childOf(info *types.Info, fun ast.Expr) (ctxOffset, string, bool) {
 	switch t := ast.Unparen(fun).(type) {
 	case *ast.Ident:
